@@ -63,23 +63,46 @@ def default_pred(facts, caller, cb, fn):
     return keep_pred()(facts, caller, cb, fn)
 
 
-def inlined(facts, body, depth=3, pred=None):
-    """Body with crate-local callees spliced in (cached per (body, depth))"""
-    key = ("inlined", depth, id(pred) if pred else 0)
-    if key in body._cache:
-        return body._cache[key]
-    pred = pred or default_pred
-    j = {k: v for k, v in body.j.items() if k not in ("blocks", "locals", "promoted", "vars")}
-    blocks = copy.deepcopy(body.j["blocks"])
-    for i, b in enumerate(blocks):
-        b.setdefault("origin", body.did)
-        b.setdefault("orig_bb", i)
-        b.setdefault("inl_stack", [body.did])
-    locals_ = list(body.j["locals"])
-    promoted = list(body.j.get("promoted", []))
-    vars_ = list(body.j.get("vars", []))
-    spliced = []
-    work = list(range(len(blocks)))
+def _splice(state, bi, cb, arg_assigns, dest, target, cu):
+    """append the blocks of `cb` to state, wire block bi into them; arg_assigns = statements that initialise the callee's
+    parameter locals, written against callee-local numbering 1.. (they get the offset added here)"""
+    blocks, locals_, promoted, vars_ = state["blocks"], state["locals"], state["promoted"], state["vars"]
+    blk = blocks[bi]
+    t = blk["term"]
+    loff, boff = len(locals_), len(blocks)
+    poff = max([p["index"] for p in promoted] + [-1]) + 1
+    locals_.extend(cb.j["locals"])
+    promoted.extend(dict(p, index=p["index"] + poff) for p in cb.j.get("promoted", []))
+    for v in cb.j.get("vars", []):
+        p = v.get("place")
+        if p is not None:
+            v2 = dict(v)
+            v2["place"] = {"l": p["l"] + loff, "p": p["p"]}
+            vars_.append(v2)
+    stack = blk["inl_stack"] + [cb.did]
+    for ci, cblk in enumerate(cb.j["blocks"]):
+        nb = {"cleanup": cblk["cleanup"], "stmts": _remap(cblk["stmts"], loff, boff, poff, cu), "origin": cb.did, "orig_bb": ci, "inl_stack": stack}
+        ct = cblk["term"]
+        if ct["k"] == "return":
+            nb["stmts"] = nb["stmts"] + [{"k": "assign", "pl": dest, "rv": {"k": "use", "op": {"k": "move", "pl": {"l": loff, "p": []}}},
+                                          "span": ct["span"], "inl_return": True}]
+            nb["term"] = {"k": "goto", "target": target, "span": ct["span"]} if target is not None else {"k": "unreachable", "span": ct["span"]}
+        elif ct["k"] == "resume" and isinstance(cu, int):
+            nb["term"] = {"k": "goto", "target": cu, "span": ct["span"]}
+        else:
+            nb["term"] = _remap_term(ct, loff, boff, poff, cu)
+        blocks.append(nb)
+    for (pl_local, rv) in arg_assigns:
+        blk["stmts"].append({"k": "assign", "pl": {"l": loff + pl_local, "p": []}, "rv": rv, "span": t["span"], "inl_arg": True})
+    blk["inl_call"] = {"did": cb.did, "id": cb.id, "span": t["span"], "entry": boff}
+    blk["term"] = {"k": "goto", "target": boff, "span": t["span"]}
+    state["spliced"].append(cb.id)
+    return range(boff, len(blocks))
+
+
+def _direct_pass(facts, body, state, work, depth, pred):
+    blocks = state["blocks"]
+    changed = False
     while work:
         bi = work.pop(0)
         blk = blocks[bi]
@@ -99,43 +122,99 @@ def inlined(facts, body, depth=3, pred=None):
             continue
         if cb.arg_count != len(t["args"]) or not pred(facts, body, cb, fn):
             continue
-        loff, boff = len(locals_), len(blocks)
-        poff = max([p["index"] for p in promoted] + [-1]) + 1
-        locals_.extend(cb.j["locals"])
-        promoted.extend(dict(p, index=p["index"] + poff) for p in cb.j.get("promoted", []))
-        for v in cb.j.get("vars", []):
-            p = v.get("place")
-            if p is not None:
-                v2 = dict(v)
-                v2["place"] = {"l": p["l"] + loff, "p": p["p"]}
-                vars_.append(v2)
-        cu = t.get("unwind")
-        stack = blk["inl_stack"] + [cb.did]
-        for ci, cblk in enumerate(cb.j["blocks"]):
-            nb = {"cleanup": cblk["cleanup"], "stmts": _remap(cblk["stmts"], loff, boff, poff, cu), "origin": cb.did, "orig_bb": ci, "inl_stack": stack}
-            ct = cblk["term"]
-            if ct["k"] == "return":
-                nb["stmts"] = nb["stmts"] + [{"k": "assign", "pl": t["dest"], "rv": {"k": "use", "op": {"k": "move", "pl": {"l": loff, "p": []}}},
-                                              "span": ct["span"], "inl_return": True}]
-                nb["term"] = {"k": "goto", "target": t["target"], "span": ct["span"]} if t.get("target") is not None else {"k": "unreachable", "span": ct["span"]}
-            elif ct["k"] == "resume" and isinstance(cu, int):
-                nb["term"] = {"k": "goto", "target": cu, "span": ct["span"]}
-            else:
-                nb["term"] = _remap_term(ct, loff, boff, poff, cu)
-            blocks.append(nb)
-        # arguments -> parameter locals, then jump into the callee
-        for i, a in enumerate(t["args"]):
-            blk["stmts"].append({"k": "assign", "pl": {"l": loff + 1 + i, "p": []}, "rv": {"k": "use", "op": a}, "span": t["span"], "inl_arg": True})
-        blk["inl_call"] = {"did": cb.did, "id": cb.id, "span": t["span"], "entry": boff}
-        blk["term"] = {"k": "goto", "target": boff, "span": t["span"]}
-        spliced.append(cb.id)
-        work.extend(range(boff, len(blocks)))
+        assigns = [(1 + i, {"k": "use", "op": a}) for i, a in enumerate(t["args"])]
+        work.extend(_splice(state, bi, cb, assigns, t["dest"], t.get("target"), t.get("unwind")))
+        changed = True
+    return changed
+
+
+FN_TRAITS = ("core::ops::FnOnce::call_once", "core::ops::FnMut::call_mut", "core::ops::Fn::call")
+
+
+def _closure_pass(facts, body, state, depth):
+    """calls of a closure value through FnOnce/FnMut/Fn whose callee is a closure written in this crate and known at this
+    point of the (partly inlined) view: `helper(data, |x| ..)` after `helper` was spliced in"""
+    from .flow import ExprBuilder
+    blocks = state["blocks"]
+    tmp = Body(dict(state["j"], blocks=blocks, locals=state["locals"], promoted=state["promoted"], vars=state["vars"]), facts)
+    eb = ExprBuilder(tmp, facts, inline=False)
+    todo = []
+    for bi, blk in enumerate(blocks):
+        t = blk["term"]
+        if t["k"] != "call" or blk["cleanup"]:
+            continue
+        fn = callee(t)
+        if fn is None or fn.get("res") is not None or fn.get("path") not in FN_TRAITS or len(t["args"]) != 2:
+            continue
+        if len(blk["inl_stack"]) > depth + 1:
+            continue
+        c = eb.operand(t["args"][0], (bi, len(blk["stmts"])))
+        by_ref = 0
+        while isinstance(c, tuple) and c and c[0] in ("ref", "deref"):
+            by_ref += 1 if c[0] == "ref" else -1
+            c = c[1]
+        if not (isinstance(c, tuple) and c and c[0] == "closure" and c[1] is not None):
+            continue
+        cb = facts.by_did.get(c[1])
+        if cb is None or cb.did in blk["inl_stack"] or len(cb.blocks) > 120:
+            continue
+        todo.append((bi, cb))
+    new_blocks = []
+    for bi, cb in todo:
+        if len(blocks) > MAX_BLOCKS:
+            break
+        t = blocks[bi]["term"]
+        a0, a1 = t["args"]
+        want_ref = cb.locals[1]["ty"].startswith("&")
+        assigns = []
+        if want_ref and fnpath(t) == "core::ops::FnOnce::call_once" and a0["k"] in ("move", "copy"):
+            # a by-reference closure called by value: its body reads the environment through a reference
+            assigns.append((1, {"k": "ref", "pl": a0["pl"], "bk": "shared"}))
+        else:
+            assigns.append((1, {"k": "use", "op": a0}))
+        nparams = cb.arg_count - 1
+        if nparams and a1["k"] in ("move", "copy"):
+            for i in range(nparams):
+                assigns.append((2 + i, {"k": "use", "op": {"k": a1["k"], "pl": {"l": a1["pl"]["l"], "p": list(a1["pl"]["p"]) + [{"f": i, "ty": cb.locals[2 + i]["ty"]}]}}}))
+        elif nparams:
+            continue
+        new_blocks.extend(_splice(state, bi, cb, assigns, t["dest"], t.get("target"), t.get("unwind")))
+    return list(new_blocks)
+
+
+def fnpath(t):
+    fn = callee(t)
+    return fn.get("path") if fn else None
+
+
+def inlined(facts, body, depth=3, pred=None):
+    """Body with crate-local callees (and closures passed to them) spliced in (cached per (body, depth, pred))"""
+    key = ("inlined", depth, id(pred) if pred else 0)
+    if key in body._cache:
+        return body._cache[key]
+    pred = pred or default_pred
+    j = {k: v for k, v in body.j.items() if k not in ("blocks", "locals", "promoted", "vars")}
+    blocks = copy.deepcopy(body.j["blocks"])
+    for i, b in enumerate(blocks):
+        b.setdefault("origin", body.did)
+        b.setdefault("orig_bb", i)
+        b.setdefault("inl_stack", [body.did])
+    state = {"j": j, "blocks": blocks, "locals": list(body.j["locals"]), "promoted": list(body.j.get("promoted", [])),
+             "vars": list(body.j.get("vars", [])), "spliced": []}
+    work = list(range(len(blocks)))
+    for _round in range(4):
+        _direct_pass(facts, body, state, work, depth, pred)
+        if not state["spliced"]:
+            break           # closures are only chased inside views that inlined a helper (stable views otherwise)
+        work = _closure_pass(facts, body, state, depth)
+        if not work:
+            break
     j["blocks"] = blocks
-    j["locals"] = locals_
-    j["promoted"] = promoted
-    j["vars"] = vars_
+    j["locals"] = state["locals"]
+    j["promoted"] = state["promoted"]
+    j["vars"] = state["vars"]
     nb = Body(j, facts)
-    nb._cache["inlined_from"] = sorted(set(spliced))
+    nb._cache["inlined_from"] = sorted(set(state["spliced"]))
     body._cache[key] = nb
     return nb
 
@@ -240,7 +319,22 @@ def resolve_sites(facts, body, judge, keep_names=(), keep_dids=(), is_entry=None
           judged in the inlined view of every (transitive) caller and accepted when it holds in all of them.
     Rescued sites get ok=True and an explanatory text."""
     sites = judge(body, None)
-    failing = [x for x in sites if not x["ok"]]
+    # verdicts that rest on a bare parameter of a non-public helper hold only if they hold for what every caller passes
+    dep = [x for x in sites if x["ok"] and x.get("ctx_dep")]
+    if dep and body.kind in ("fn", "assoc_fn") and not str(body.vis).startswith("Public") and not (is_entry and is_entry(body)):
+        ctxs = contexts(facts, body, pred=keep_pred(keep_names, keep_dids, atoms=True))
+        for cb in ctxs:
+            blocks = set()
+            for x in dep:
+                blocks.update(sites_in(cb, body.did, x["bi"]))
+            for y in judge(cb, blocks):
+                blk = cb.blocks[y["bi"]]
+                for x in dep:
+                    if blk.get("origin") == body.did and blk.get("orig_bb") == x["bi"] and y["j"] == x["j"] and not y["ok"] and x["ok"]:
+                        x["ok"] = False
+                        x["final"] = True           # a context refutes it: nothing to rescue
+                        x["text"] = "in the context of %s: %s" % (cb.id.rsplit("::", 1)[-1], y["text"])
+    failing = [x for x in sites if not x["ok"] and not x.get("final")]
     if not failing:
         return sites
     for ib in views(facts, body, keep_names, keep_dids):
